@@ -565,3 +565,35 @@ def same(a, b):
     if a[0] == 'int' and b[0] == 'int':
         return a[1] == b[1] and a[2] == b[2]
     return equal(a, b)
+
+
+# ---------------------------------------------------------------------------------------------
+# helper of the reference encoders
+
+def product(lists, limit):
+    """All concatenations choosing one alternative per position, total length <= limit.
+    Runs of positions with a single alternative are joined first (a 65536-element array of
+    one-form children is one join, not 65536 list rebuilds)."""
+    merged = []
+    run = []
+    for alts in lists:
+        if len(alts) == 1:
+            run.append(alts[0])
+        else:
+            if run:
+                merged.append([b"".join(run)])
+                run = []
+            merged.append(alts)
+    if run:
+        merged.append([b"".join(run)])
+    res = [b""]
+    for alts in merged:
+        nxt = []
+        for pre in res:
+            for a in alts:
+                if len(pre) + len(a) <= limit:
+                    nxt.append(pre + a)
+        res = nxt
+        if not res:
+            break
+    return res
